@@ -611,6 +611,31 @@ func (fx *FnExec) applyContract(con *Contract, key string, recv *Val, args []Val
 		}
 		fx.oblige("pre", lab, t, "precondition of "+displayKey(key)+": "+r.Text, pos)
 	}
+	if fx.con != nil && fx.con.CallPre != nil {
+		ck := fmt.Sprintf("%s@%d", shortName(key), callOrd)
+		fx.seenCallPre[ck] = true
+		for i, r := range fx.con.CallPre[ck] {
+			cenv := fx.specEnv(&fx.cur, &fx.entry, nil)
+			for j := range args {
+				cenv.names[fmt.Sprintf("arg%d", j)] = args[j]
+			}
+			if recv != nil {
+				cenv.names["recv"] = *recv
+			}
+			t, err := cenv.evalBool(r.Text)
+			if err != nil {
+				return Val{}, fmt.Errorf("%s:%d: %v", r.File, r.Line, err)
+			}
+			lab := ck + "."
+			if r.Label != "" {
+				lab += r.Label
+			} else {
+				lab += fmt.Sprint(i + 1)
+			}
+			o := fx.oblige("callpre", lab, t, "before the call of "+displayKey(key)+": "+r.Text, pos)
+			o.Props = fx.con.Props
+		}
+	}
 	old := fx.cur.clone()
 	oldAlloc := fx.heapVar(&fx.cur, "$alloc", "Int")
 	if con.ModAll || (len(con.Mod) == 0 && con.Flags["pure"] == "" && !hasModClause(con)) {
